@@ -91,8 +91,9 @@ Definition status_trailers (server_codec : bool) (st : Z) (msg : option (list Z)
 (* ---- the receiving h2 (header_encoding='ascii') ------------------------------------------- *)
 
 (* Header names and values arrive as bytes; h2 decodes both as ASCII.  A byte >= 0x80 makes
-   H2Connection.receive_data raise UnicodeDecodeError, which H2Protocol.data_received does not
-   catch: None. *)
+   H2Connection.receive_data raise UnicodeDecodeError, which H2Protocol.data_received treats as a
+   protocol error (the connection is closed, every open call ends with StreamTerminatedError):
+   None. *)
 Definition h2_decode_headers (raw : headers) : option headers :=
   if forallb (fun kv => ascii_ok (fst kv) && ascii_ok (snd kv)) raw then Some raw else None.
 
@@ -147,7 +148,7 @@ Definition process_grpc_status (client_codec : bool) (hs : headers) : client_sta
   end.
 
 Inductive received :=
-| RConnError                      (* UnicodeDecodeError out of data_received *)
+| RConnError                      (* undecodable header block: connection closed, StreamTerminatedError *)
 | RStatus (c : client_status).
 
 (* a trailers block as it arrives from the network *)
